@@ -7,7 +7,15 @@ real alru_cache / acached_per_instance / alazy_constant.  The Lean model (AsynqM
 get_args_tuple and get_kwargs_defaults and the three wrappers, branch for branch, with the argument-name lists AS
 WRITTEN in tools.py, and the closure dict of acached_per_instance that holds the cached values strongly) replays the
 same history (correspondence) and the Lean observers `Alru.spec`, `PerInst.spec`, `Lazy.spec` - a reference cache
-keyed on the call's normalised arguments - judge the implementation's observations on their own."""
+keyed on the call's normalised arguments - judge the implementation's observations on their own.
+
+Round 4 (feature interactions): every history is crossed with (a) ONE decorator object applied to 1-3 functions (model:
+the families of Lib/CacheFam.lean, one cache per function; observers `*.Fam.spec`, one reference cache per function),
+(b) the entry point of each call, including asyncio mode (await f.asyncio(..), yielded under .asyncio()), another thread,
+async_call, call_with_context, C.m(obj, ..), (c) what the decorator wraps (@asynq(), @asynq(asyncio_fn=..), a function whose
+.asyncio() was used before, @deduplicate(), @async_proxy()), (d) how the decorator arguments are spelled, (e) bodies that
+block on asynq's DebugBatchItem, falsy values, debug options switched in mid-history, (deep) copies of instances; plus a
+family of self-recursive cached functions judged by a direct expectation of the driver."""
 import hashlib
 import itertools
 import json
@@ -15,7 +23,7 @@ import random
 
 PID = "C13"
 LEVEL = "proof"
-LEAN_MODULES = ["AsynqModel.Theorems.C13"]
+LEAN_MODULES = ["AsynqModel.Theorems.C13", "AsynqModel.Theorems.C13b"]
 # the claimed theorems (audited with #print axioms by the proof gate); one line each in MANIFEST.json / DESIGN.md 5
 THEOREMS = [
     "AsynqModel.Cache.C13_key_normal",
@@ -34,6 +42,14 @@ THEOREMS = [
     "AsynqModel.Cache.C13_lazy_dirty_once",
     "AsynqModel.Cache.C13_lazy_ttl_once",
     "AsynqModel.Cache.C13_lazy_raise_not_cached",
+    # families: ONE decorator object applied to several functions (Theorems/C13b.lean)
+    "AsynqModel.Cache.C13_alru_shared_decorator_refines",
+    "AsynqModel.Cache.C13_alru_shared_decorator_refines_keyfn",
+    "AsynqModel.Cache.C13_alru_family_projection",
+    "AsynqModel.Cache.C13_alru_family_size_le_maxsize",
+    "AsynqModel.Cache.C13_per_instance_shared_decorator_refines_partial",
+    "AsynqModel.Cache.C13_per_instance_family_leak_counterexample",
+    "AsynqModel.Cache.C13_lazy_shared_decorator_refines",
     # every hypothesis of the refinement theorems is needed (witnesses on the model)
     "AsynqModel.Cache.C13_alru_callOK_needed",
     "AsynqModel.Cache.C13_per_instance_callOK_needed",
@@ -47,6 +63,7 @@ STEP_LEMMAS = [
     "AsynqModel.Cache.C13_alru_miss",
     "AsynqModel.Cache.C13_alru_raise_not_stored",
     "AsynqModel.Cache.C13_instance_drop",
+    "AsynqModel.Cache.C13_alru_functions_independent",
 ]
 BUILDS = {"quick": ["py"], "thorough": ["py", "cy"]}
 CASE_TIMEOUT = 20
@@ -62,22 +79,50 @@ RULE = ("three streams. alru: signature (0-3 positional-or-keyword parameters wi
         "of the cases half of the bodies return a value that refers to the instance (plus every 3-operation history over "
         "call-with-such-a-value / plain call / drop on two instances). lazy: ttl 0/5/10 x scripted clock x "
         "call/dirty()/tick with bodies of duration 0-7 on the clock. Every body either returns (stamp, received "
-        "arguments[, instance]) or raises, directly or after blocking on a batch item; calls are made as f(..), "
-        "f.asynq(..).value() or from inside an outer async function. "
+        "arguments[, instance]) or raises, directly or after blocking on a batch item (35%; of these 15% on asynq's own "
+        "DebugBatchItem; on the event loop in asyncio mode); 10% of the values are falsy. "
+        "Every generated history is crossed with: ONE decorator object applied to 1 (72%) / 2 (20%) / 3 (8%) functions "
+        "(half of the further functions repeat the first signature, the others get their own; 20% of the cases use a fresh "
+        "decorator per function instead; each call picks its function at random); the entry point of each call: f(..), "
+        "f.asynq(..).value(), yielded by an outer async function, asynq.async_call (7%), another thread (4%), "
+        "tools.call_with_context with an AsyncContext (4%), C.m(obj, ..) / C.m.asynq(obj, ..) (per-instance, 10%), and in 18% of "
+        "the cases half of the calls in asyncio mode (await f.asyncio(..), yielded by an outer function under .asyncio(), "
+        "await C.m.asyncio(obj, ..)) with the wrapped function declared @asynq() / @asynq(asyncio_fn=coroutine) / used through "
+        "its own .asyncio() before decoration (4:4:2); the wrapped function is @deduplicate() @asynq() (8%) or @async_proxy() "
+        "(8%); decorator arguments positional (30%) or omitted; 8% of the cases switch a silent debug option "
+        "(COLLECT_PERF_STATS, KEEP_DEPENDENCIES, ENABLE_COMPLEX_ASSERTIONS) in mid-history; 12% of the per-instance cases use "
+        "a copy.copy()/deepcopy() of an instance as a further instance; odd instance tokens are instances of a subclass. "
+        "Exhaustive cores: every 4-call history over 2 functions x 2 keys x maxsize 1-2, every 3-call history over f(a, b=0) / "
+        "g(a, *, k=0) under one decorator object (default key and one shared key_fn), every 3-operation (thorough: 4) "
+        "per-instance history over 2 methods x 2 instances with drops and a self-referring value, every 4-operation history "
+        "over 2 lazy constants; every 3-call history over entry points sync/.asyncio()/yielded-under-.asyncio() x 3 spellings "
+        "for each of the three ways of having an asyncio implementation; sizes: alru_cache() (default maxsize 128) and "
+        "maxsize 16 filled to the brim (+1 function under the same decorator object); self-recursive fib under alru_cache "
+        "maxsize 1-5 and acached_per_instance (direct expectation). "
         "non-trivial = at least 3 calls with at least one reference hit and one reference miss; distinct by case hash")
 TRUSTED = [
-    "hand-written Lean model AsynqModel.Lib.Cache tied to the code by this differential run only",
+    "hand-written Lean model AsynqModel.Lib.Cache / Lib.CacheFam tied to the code by this differential run only",
     "`bind` (Python's argument binding) in the Lean model: validated on every miss, because the body reports the "
     "arguments it actually received",
     "Python harness checks/c13.py (generated functions via exec, scripted clock patched into asynq.tools.utime, "
-    "body run counter, batch used for blocking bodies)",
+    "body run counters, batch used for blocking bodies, asyncio event loop per case, worker thread for via=thread)",
     "qcore.caching.LRUCache/get_args_tuple/get_kwargs_defaults are modelled from their source, CPython dict/OrderedDict; "
     "'the program drops the instance' is `del` + gc.collect() in CPython: an object reachable from the decorator's "
     "closure is not freed, one that only sits in a reference cycle is",
 ]
 ASSUMPTIONS = [
     "histories are sequences of top-level calls, each run to completion before the next starts (two calls with the same "
-    "key in flight at once both miss - that is deduplicate's business, C12)",
+    "key in flight at once both miss - that is deduplicate's business, C12); the one exception is the self-recursive "
+    "family (a body that calls its own cached function with other arguments), which no theorem speaks about: the driver "
+    "computes the expected value and number of body runs with the model's LRUCache",
+    "the entry point of a call (sync, .asynq(), yielded, async_call, call_with_context, another thread, C.m(obj, ..), "
+    ".asyncio(), yielded under .asyncio()) and the kind of function wrapped (@asynq() with or without asyncio_fn, "
+    "@deduplicate(), @async_proxy()) are not part of the model: its operations are calls, whatever their entry point - "
+    "the theorems hold for every history, and the observers judge the implementation's observations for every entry point",
+    "in asyncio mode a body blocks on the event loop (asyncio.sleep(0)), not on a batch (batch items are not supported "
+    "there); errors are Exception subclasses, yielded values plain (outside C15's open findings)",
+    "values are tuples (10% of them a falsy tuple subclass); a body that returns None is not generated (the harness "
+    "identifies a returned value by identity)",
     "wrapped functions have no *args/**kwargs; argument values are hashable and compared by ==",
     "calls Python cannot bind are covered when an argument is missing or a keyword is unexpected (TypeError, nothing "
     "runs). A call that passes too many positionals or one parameter twice is OUTSIDE the property: it has no "
@@ -202,10 +247,41 @@ def unbindable(rng, sig, args, kw):
     return None
 
 
-def gen_call(rng, sig, pool, inst=0, allpos=False, malformed_rate=0.05, lazy=False, unbindable_rate=0.0, selfref_rate=0.0):
+AIO_VIAS = ("asyncio", "aio-inner", "cls-asyncio")
+SILENT_OPTIONS = ["COLLECT_PERF_STATS", "KEEP_DEPENDENCIES", "ENABLE_COMPLEX_ASSERTIONS"]
+
+
+def pick_via(rng, kind, aio):
+    """the entry point a call is made through.  sync: f(..); asynq: f.asynq(..).value(); inner: yielded by an outer
+    @asynq() function; async_call: asynq.async_call(f, ..); thread: f(..) on another thread (joined before the history
+    goes on); with-context: asynq.tools.call_with_context(ctx, f, ..) with an AsyncContext; cls / cls-asynq: C.m(obj, ..) / C.m.asynq(obj, ..).value() (per-instance only); asyncio: await f.asyncio(..)
+    on an event loop; aio-inner: yielded by an outer @asynq() function that runs under .asyncio(); cls-asyncio:
+    await C.m.asyncio(obj, ..)"""
+    if aio and rng.random() < 0.5:
+        return rng.choice(["asyncio", "asyncio", "aio-inner"] + (["cls-asyncio"] if kind == "perinst" else []))
+    r = rng.random()
+    if r < 0.07:
+        return "async_call"
+    if r < 0.11:
+        return "thread"
+    if r < 0.15:
+        return "with-context"
+    if kind == "perinst" and r < 0.21:
+        return rng.choice(["cls", "cls-asynq"])
+    return rng.choice(["sync", "sync", "asynq", "inner"])
+
+
+def gen_call(rng, sig, pool, inst=0, allpos=False, malformed_rate=0.05, lazy=False, unbindable_rate=0.0, selfref_rate=0.0,
+             fn=0, kind="alru", aio=False):
+    blocks = 0
+    if rng.random() < 0.35:
+        blocks = 2 if rng.random() < 0.15 else 1      # 2 = asynq's own DebugBatchItem instead of the harness's batch
     op = {"op": "call", "inst": inst, "args": [], "kw": [], "raises": 1 if rng.random() < 0.15 else 0, "dur": 0,
-          "blocks": 1 if rng.random() < 0.35 else 0, "rpos": rng.randint(0, 1),
-          "via": rng.choice(["sync", "sync", "asynq", "inner"])}
+          "blocks": blocks, "rpos": rng.randint(0, 1), "via": pick_via(rng, "lazy" if lazy else kind, aio)}
+    if fn:
+        op["fn"] = fn
+    if rng.random() < 0.1:
+        op["falsy"] = 1          # the value the body returns is falsy (bool(value) is False)
     if selfref_rate and rng.random() < selfref_rate:
         op["selfref"] = 1
     if lazy:
@@ -223,28 +299,110 @@ def gen_call(rng, sig, pool, inst=0, allpos=False, malformed_rate=0.05, lazy=Fal
     return op
 
 
+def case_sigs(case):
+    """the signatures of the functions decorated by the case's decorator object (function 0, 1, ..)"""
+    return case.get("sigs") or [case["sig"]]
+
+
+def gen_family(rng, sig0, mk_sig):
+    """how many functions the ONE decorator object is applied to, and their signatures: half of the further functions
+    repeat the first signature (their keys coincide exactly), the others get one of their own"""
+    nfn = rng.choices([1, 2, 3], weights=[72, 20, 8])[0]
+    sigs = [sig0]
+    for _ in range(nfn - 1):
+        sigs.append(json.loads(json.dumps(sig0)) if rng.random() < 0.5 else mk_sig())
+    return sigs
+
+
+def gen_dims(rng, case, kind):
+    """the dimensions a call history is crossed with: asyncio mode (and how the wrapped function comes to its asyncio
+    implementation), what the decorator wraps, how the decorator arguments are spelled, one decorator object or a
+    fresh one per function"""
+    aio = rng.random() < 0.18
+    if aio:
+        # 1 = @asynq(asyncio_fn=native coroutine), 2 = the wrapped function's .asyncio() was used before it was decorated
+        case["native"] = rng.choices([0, 1, 2], weights=[4, 4, 2])[0]
+    elif rng.random() < 0.05:
+        case["native"] = 1
+    r = rng.random()
+    if not case.get("native"):
+        if r < 0.08:
+            case["wrap"] = "dedup"          # @cache @deduplicate() @asynq()
+        elif r < 0.16:
+            case["wrap"] = "proxy"          # @cache @async_proxy() def f(..): return inner.asynq(..)
+    if rng.random() < 0.3:
+        case["dspell"] = "pos"
+    if rng.random() < 0.2:
+        case["deco"] = "fresh"
+    return aio
+
+
+def sprinkle(rng, ops, kind, ninst=1):
+    """harness-only events between the calls: a silent debug option switched on/off in mid-history; a (deep) copy of an
+    instance that carries bound cached methods, used as a further instance"""
+    n = len(ops)
+    if n and rng.random() < 0.08:
+        for _ in range(rng.randint(1, 2)):
+            ops.insert(rng.randint(0, len(ops)), {"op": "opt", "name": rng.choice(SILENT_OPTIONS), "on": rng.randint(0, 1)})
+    calls = [k for k, o in enumerate(ops) if o["op"] == "call"]
+    if kind == "perinst" and calls and rng.random() < 0.12:
+        # after a call on `src`: instance token `ninst` is a (deep) copy of it; some later calls on `src` go to the copy
+        k = rng.choice(calls)
+        src = ops[k]["inst"]
+        for o in ops[k + 1:]:
+            if o["op"] == "call" and o["inst"] == src and rng.random() < 0.5:
+                o["inst"] = ninst
+        ops.insert(k + 1, {"op": "copy", "src": src, "inst": ninst, "deep": rng.randint(0, 1)})
+        if rng.random() < 0.5:
+            ops.append(dict(ops[k], inst=ninst))
+    return ops
+
+
 def gen_alru(rng, size=None):
     keyspec = rng.choices(KEYSPECS, weights=[11, 2, 3, 3])[0]
     allpos = keyspec == "default" and rng.random() < 0.4
-    sig = gen_sig(rng)
-    if allpos:
-        sig["kwonly"], sig["kwd"] = [], []
-        if not sig["args"]:
-            sig["args"] = ["a"]
-            sig["defaults"] = []
-    pool = [gen_binding(rng, sig) for _ in range(rng.randint(2, 5))]
+
+    def mk_sig():
+        sig = gen_sig(rng)
+        if allpos:
+            sig["kwonly"], sig["kwd"] = [], []
+            if not sig["args"]:
+                sig["args"] = ["a"]
+                sig["defaults"] = []
+        return sig
+    sigs = gen_family(rng, mk_sig(), mk_sig)
+    pools = []
+    for f, sig in enumerate(sigs):
+        same = [g for g in range(f) if sigs[g] == sig]
+        pools.append(pools[same[0]] if same else [gen_binding(rng, sig) for _ in range(rng.randint(2, 5))])
     n = size if size is not None else rng.choice([2, 3, 4, 6, 8, 12, 20, 30])
     ub = 0.25 if keyspec == "default" and not allpos and rng.random() < 0.02 else 0.0
-    ops = [gen_call(rng, sig, pool, allpos=allpos, malformed_rate=0.0 if allpos else 0.05, unbindable_rate=ub)
-           for _ in range(n)]
-    return {"cache": "alru", "maxsize": rng.choice([1, 2, 2, 3, 4]), "keyspec": keyspec, "sig": sig, "ops": ops}
+    case = {"cache": "alru", "maxsize": rng.choice([1, 2, 2, 3, 4]), "keyspec": keyspec, "sig": sigs[0]}
+    if len(sigs) > 1:
+        case["sigs"] = sigs
+    aio = gen_dims(rng, case, "alru")
+    ops = []
+    for _ in range(n):
+        f = rng.randrange(len(sigs))
+        ops.append(gen_call(rng, sigs[f], pools[f], allpos=allpos, malformed_rate=0.0 if allpos else 0.05,
+                            unbindable_rate=ub, fn=f, kind="alru", aio=aio))
+    case["ops"] = sprinkle(rng, ops, "alru")
+    return case
 
 
 def gen_perinst(rng, size=None):
-    sig = gen_sig(rng, method=True)
-    pool = [gen_binding(rng, sig) for _ in range(rng.randint(2, 4))]
+    sigs = gen_family(rng, gen_sig(rng, method=True), lambda: gen_sig(rng, method=True))
+    pools = []
+    for f, sig in enumerate(sigs):
+        same = [g for g in range(f) if sigs[g] == sig]
+        pools.append(pools[same[0]] if same else [gen_binding(rng, sig) for _ in range(rng.randint(2, 4))])
     ninst = rng.randint(1, 3)
     n = size if size is not None else rng.choice([2, 3, 4, 6, 8, 12, 20, 30])
+    case = {"cache": "perinst", "sig": sigs[0]}
+    if len(sigs) > 1:
+        case["sigs"] = sigs
+    aio = gen_dims(rng, case, "perinst")
+    case.pop("dspell", None)                      # acached_per_instance() takes no arguments
     ops = []
     ub = 0.25 if rng.random() < 0.02 else 0.0
     sr = 0.5 if rng.random() < 0.06 else 0.0      # bodies whose value refers to the instance
@@ -253,23 +411,35 @@ def gen_perinst(rng, size=None):
         if rng.random() < 0.12:
             ops.append({"op": "drop", "inst": i})
         else:
-            ops.append(gen_call(rng, sig, pool, inst=i, unbindable_rate=ub, selfref_rate=sr))
-    return {"cache": "perinst", "sig": sig, "ops": ops}
+            f = rng.randrange(len(sigs))
+            ops.append(gen_call(rng, sigs[f], pools[f], inst=i, unbindable_rate=ub, selfref_rate=sr, fn=f, kind="perinst",
+                                aio=aio))
+    case["ops"] = sprinkle(rng, ops, "perinst", ninst)
+    return case
 
 
 def gen_lazy(rng, size=None):
     ttl = rng.choice([0, 5, 5, 10])
     n = size if size is not None else rng.choice([2, 3, 4, 6, 8, 12, 20])
+    nfn = rng.choices([1, 2, 3], weights=[72, 20, 8])[0]
+    case = {"cache": "lazy", "ttl": ttl, "t0": rng.choice([1, 100])}
+    if nfn > 1:
+        case["nfn"] = nfn
+    aio = gen_dims(rng, case, "lazy")
+    if case.get("dspell") == "pos" and ttl == 0 and rng.random() < 0.5:
+        case["dspell"] = "default"                # alazy_constant() without arguments
     ops = []
     for _ in range(n):
         r = rng.random()
+        f = rng.randrange(nfn)
         if r < 0.15:
-            ops.append({"op": "dirty"})
+            ops.append(dict({"op": "dirty"}, **({"fn": f} if f else {})))
         elif r < 0.40:
             ops.append({"op": "tick", "d": rng.choice([1, 4, 5, 6, 10, 11, 20])})
         else:
-            ops.append(gen_call(rng, None, None, lazy=True))
-    return {"cache": "lazy", "ttl": ttl, "t0": rng.choice([1, 100]), "ops": ops}
+            ops.append(gen_call(rng, None, None, lazy=True, fn=f, aio=aio))
+    case["ops"] = sprinkle(rng, ops, "lazy")
+    return case
 
 
 def gen_case(rng, size=None):
@@ -329,6 +499,109 @@ def exhaustive_core(tier):
             if sum(1 for o in h if o["op"] == "call") < 2:
                 continue
             cases.append({"cache": "lazy", "ttl": ttl, "t0": 1, "ops": [dict(o) for o in h]})
+    return cases + family_core(tier) + asyncio_core(tier) + big_core() + recur_core(tier)
+
+
+def recur_core(tier):
+    """a cached function that calls itself: maxsize 1-5 x two top-level calls fib(n1), fib(n2)"""
+    cases = []
+    top = 7 if tier == "quick" else 10
+    for maxsize in (1, 2, 3, 4, 5):
+        for n1 in range(2, top + 1):
+            for n2 in (0, n1 - 1, n1, n1 + 1):
+                cases.append({"cache": "recur", "kind": "alru", "maxsize": maxsize, "nest": "sync" if (n1 + n2) % 3 == 0 else "yield",
+                              "tops": [n1, n2, n1]})
+    for n1 in range(2, top + 1):
+        for nest in ("yield", "sync"):
+            cases.append({"cache": "recur", "kind": "perinst", "maxsize": 0, "nest": nest, "tops": [n1, n1 + 2, 1, n1]})
+    return cases
+
+
+def family_core(tier):
+    """ONE decorator object applied to two functions: every short interleaved history"""
+    cases = []
+    s1 = {"args": ["a"], "defaults": [], "kwonly": [], "kwd": []}
+    fops = [_call([0], []), _call([1], []), _call([0], [], fn=1), _call([1], [], fn=1)]
+    for maxsize in (1, 2):
+        for h in itertools.product(fops, repeat=4):
+            if len(set(o.get("fn", 0) for o in h)) < 2:
+                continue
+            cases.append({"cache": "alru", "maxsize": maxsize, "keyspec": "default", "sig": s1, "sigs": [s1, s1],
+                          "ops": [dict(o) for o in h]})
+    # different signatures whose keys coincide: f(a, b=0) and g(a, *, k=0), one custom key function for both
+    sf = {"args": ["a", "b"], "defaults": [0], "kwonly": [], "kwd": []}
+    sg = {"args": ["a"], "defaults": [], "kwonly": ["k"], "kwd": [["k", 0]]}
+    gops = [_call([1], []), _call([1, 0], []), _call([1], [], fn=1), _call([], [["k", 0], ["a", 1]], fn=1), _call([2], [], fn=1)]
+    for keyspec in ("default", "sumParity"):
+        for h in itertools.product(gops, repeat=3):
+            if len(set(o.get("fn", 0) for o in h)) < 2:
+                continue
+            cases.append({"cache": "alru", "maxsize": 1, "keyspec": keyspec, "sig": sf, "sigs": [sf, sg],
+                          "ops": [dict(o) for o in h]})
+    ms = {"args": ["self", "a"], "defaults": [], "kwonly": [], "kwd": []}
+    pops = [_call([0], [], inst=0), _call([0], [], inst=0, fn=1), _call([0], [], inst=1), _call([0], [], inst=1, fn=1),
+            _call([0], [], inst=0, fn=1, selfref=1), {"op": "drop", "inst": 0}, {"op": "drop", "inst": 1}]
+    for h in itertools.product(pops, repeat=3 if tier == "quick" else 4):
+        if len(set(o.get("fn", 0) for o in h if o["op"] == "call")) < 2:
+            continue
+        cases.append({"cache": "perinst", "sig": ms, "sigs": [ms, ms], "ops": [dict(o) for o in h]})
+    lops = [_call([], []), _call([], [], fn=1), _call([], [], fn=1, dur=3, blocks=1), {"op": "dirty"}, {"op": "dirty", "fn": 1},
+            {"op": "tick", "d": 6}]
+    for ttl in (0, 5):
+        for h in itertools.product(lops, repeat=4):
+            if len(set(o.get("fn", 0) for o in h if o["op"] == "call")) < 2:
+                continue
+            cases.append({"cache": "lazy", "ttl": ttl, "t0": 1, "nfn": 2, "ops": [dict(o) for o in h]})
+    return cases
+
+
+def asyncio_core(tier):
+    """every 3-call history over entry points (sync / .asyncio() / yielded under .asyncio()) x two keys, for each way the
+    wrapped function comes to its asyncio implementation (converted generator / asyncio_fn= / .asyncio() used before)"""
+    cases = []
+    s1 = {"args": ["a", "b"], "defaults": [0], "kwonly": [], "kwd": []}
+    m1 = {"args": ["self", "a", "b"], "defaults": [0], "kwonly": [], "kwd": []}
+    vias = ["sync", "asyncio", "aio-inner"]
+    calls = [(v, a, k) for v in vias for (a, k) in (([0], []), ([], [["a", 0], ["b", 0]]), ([1], []))]
+    for native in (0, 1, 2):
+        for h in itertools.product(calls, repeat=3):
+            if not any(v in AIO_VIAS for v, _, _ in h):
+                continue
+            if tier == "quick" and native != 1 and h[0][0] == "sync":
+                continue
+            ops = [_call(a, k, via=v, blocks=i % 2) for i, (v, a, k) in enumerate(h)]
+            cases.append({"cache": "alru", "maxsize": 1, "keyspec": "default", "sig": s1, "native": native, "ops": ops})
+        for h in itertools.product(vias, repeat=3):
+            if not any(v in AIO_VIAS for v in h):
+                continue
+            cases.append({"cache": "perinst", "sig": m1, "native": native,
+                          "ops": [_call([0], [], via=v, inst=i // 2) for i, v in enumerate(h)]})
+            for dirty_at in (1, 2):
+                ops = [_call([], [], via=v) for v in h]
+                ops.insert(dirty_at, {"op": "dirty"})
+                cases.append({"cache": "lazy", "ttl": 0, "t0": 1, "native": native, "ops": ops})
+    return cases
+
+
+def big_core():
+    """sizes as a parameter: alru_cache() with its default maxsize (128) and maxsize 16 - fill the cache, use the oldest
+    entry, add two more keys: exactly the second-oldest and third-oldest are evicted; a second function decorated by
+    the same decorator object does not take part in the budget"""
+    cases = []
+    s1 = {"args": ["a"], "defaults": [], "kwonly": [], "kwd": []}
+    for maxsize, dspell in ((128, "default"), (16, "pos")):
+        for nfn in (1, 2):
+            ops = [_call([x], []) for x in range(maxsize)]
+            if nfn == 2:
+                ops += [_call([x], [], fn=1) for x in range(3)]
+            ops += [_call([0], []), _call([maxsize], []), _call([maxsize + 1], []), _call([0], []), _call([1], []),
+                    _call([2], []), _call([3], [])]
+            if nfn == 2:
+                ops += [_call([0], [], fn=1)]
+            c = {"cache": "alru", "maxsize": maxsize, "keyspec": "default", "sig": s1, "dspell": dspell, "ops": ops}
+            if nfn == 2:
+                c["sigs"] = [s1, s1]
+            cases.append(c)
     return cases
 
 
@@ -342,10 +615,36 @@ def plan(tier, seed):
 
 
 def shrink(case):
+    if case["cache"] == "recur":
+        for i in range(len(case["tops"])):
+            if len(case["tops"]) > 1:
+                yield dict(case, tops=case["tops"][:i] + case["tops"][i + 1:])
+        for i, n in enumerate(case["tops"]):
+            if n > 0:
+                yield dict(case, tops=case["tops"][:i] + [n - 1] + case["tops"][i + 1:])
+        return
     ops = case["ops"]
     for i in range(len(ops)):
         c = dict(case)
         c["ops"] = ops[:i] + ops[i + 1:]
+        yield c
+    # one dimension less: a single function, a fresh decorator per function, a plain @asynq() function, no asyncio_fn
+    if len(case.get("sigs") or []) > 1 or case.get("nfn", 1) > 1:
+        c = dict(case)
+        c.pop("sigs", None)
+        c.pop("nfn", None)
+        c["ops"] = [dict((k, v) for k, v in o.items() if k != "fn") for o in ops]
+        yield c
+        if case.get("deco", "one") == "one":
+            yield dict(case, deco="fresh")
+    for k in ("native", "wrap", "dspell"):
+        if case.get(k) and not (k == "dspell" and case[k] == "default"):
+            c = dict(case)
+            c.pop(k)
+            yield c
+    if any(o.get("via") in AIO_VIAS for o in ops):
+        c = dict(case)
+        c["ops"] = [dict(o, via="sync") if o.get("via") in AIO_VIAS else o for o in ops]
         yield c
     for i, o in enumerate(ops):
         if o["op"] == "call" and (o.get("blocks") or o.get("via") != "sync" or o.get("dur")):
@@ -353,22 +652,32 @@ def shrink(case):
             o2 = dict(o, blocks=0, via="sync")
             c["ops"] = ops[:i] + [o2] + ops[i + 1:]
             yield c
-    if case["cache"] == "alru" and case["maxsize"] > 1:
+    if case["cache"] == "alru" and case["maxsize"] > 1 and case.get("dspell") != "default":
         yield dict(case, maxsize=case["maxsize"] - 1)
 
 
 def neighbours(case, rng):
+    if case["cache"] == "recur":
+        return
     for _ in range(32):
         c = json.loads(json.dumps(case))
         ops = c["ops"]
         g = {"alru": gen_alru, "perinst": gen_perinst, "lazy": gen_lazy}[c["cache"]]
         fresh = g(rng, 4)
+        aio = any(o.get("via") in AIO_VIAS for o in ops)
         if c["cache"] != "lazy":
-            # keep the signature: re-spell calls of this case instead of importing foreign ones
-            pool = [gen_binding(rng, c["sig"]) for _ in range(3)]
-            new = [gen_call(rng, c["sig"], pool, inst=rng.randrange(2)) for _ in range(3)]
+            # keep the signatures: re-spell calls of this case instead of importing foreign ones
+            sigs = case_sigs(c)
+            new = []
+            for _ in range(3):
+                f = rng.randrange(len(sigs))
+                pool = [gen_binding(rng, sigs[f]) for _ in range(3)]
+                new.append(gen_call(rng, sigs[f], pool, inst=rng.randrange(2), fn=f, kind=c["cache"], aio=aio))
         else:
-            new = fresh["ops"]
+            new = [o for o in fresh["ops"] if o["op"] not in ("opt", "copy")] or [{"op": "dirty"}]
+            for o in new:
+                if o.get("fn", 0) >= c.get("nfn", 1):
+                    o.pop("fn")
         if ops and rng.random() < 0.4:
             ops[rng.randrange(len(ops))] = rng.choice(new)
         else:
@@ -379,9 +688,11 @@ def neighbours(case, rng):
 
 
 def signature(case, v):
-    """what fails: cache / key function / violated clause.  The driver appends `+cached-value-refers-to-instance` when
-    the clause is `instances`, a body of the case returns a value that refers to its instance and the observations are
-    exactly those of the model of the code as it is (the closure dict keeps such an instance and its entry alive):
+    """what fails: cache / key function / violated clause (computed by the framework on the ORIGINAL failing case, so it
+    must not depend on dimensions the defect does not need: the shrunk case in the replay file shows which of them -
+    several functions, asyncio mode, asyncio_fn - it does need).  The driver appends `+cached-value-refers-to-instance`
+    when the clause is `instances`, a body of the case returns a value that refers to its instance and the observations
+    are exactly those of the model of the code as it is (the closure dict keeps such an instance and its entry alive):
     one defect, one signature, and every other way of getting the number of entries wrong keeps its own."""
     spec = v["spec"]
     if spec == "fail:instances+cached-value-refers-to-instance":
@@ -408,7 +719,7 @@ def _sig_wire(sig):
     )
 
 
-def _body_source(sig):
+def _params_source(sig):
     params = []
     args = sig["args"]
     nd = len(sig["defaults"])
@@ -420,19 +731,90 @@ def _body_source(sig):
         kwd = dict((k, v) for k, v in sig["kwd"])
         for n in sig["kwonly"]:
             params.append("%s=%d" % (n, kwd[n]) if n in kwd else n)
+    return ", ".join(params)
+
+
+def _body_source(sig, f=0):
+    """the wrapped function three times over the same parameter list: `body` (generator, what the asynq scheduler and a
+    converted .asyncio() run), `native` (a coroutine function for asyncio_fn=), `proxy` (for @async_proxy(): hands the
+    call on to `_inner`); all of them report the arguments they RECEIVED"""
+    args = sig["args"]
+    params = _params_source(sig)
     received = [a for a in args if a != "self"] + list(sig["kwonly"])
-    return "def body(%s):\n    return (yield from _impl((%s)%s))\n" % (
-        ", ".join(params), "".join(r + ", " for r in received), ", self" if "self" in args else "")
+    recv = "(%s)%s" % ("".join(r + ", " for r in received), ", self" if "self" in args else "")
+    fwd = ", ".join(list(args) + ["%s=%s" % (k, k) for k in sig["kwonly"]])
+    return ("def body(%s):\n    return (yield from _impl(%d, %s))\n"
+            "async def native(%s):\n    return await _aimpl(%d, %s)\n"
+            "def proxy(%s):\n    return _inner.asynq(%s)\n") % (params, f, recv, params, f, recv, params, fwd)
 
 
 _FROZEN = [False]
 
 
+def _run_recur(case):
+    """a cached function whose body calls itself (fib): nested calls of the SAME cached function inside a miss"""
+    import asynq
+    import asynq.tools as tools
+    runs = [0]
+    sync_nest = case.get("nest") == "sync"
+    if case["kind"] == "alru":
+        @tools.alru_cache(maxsize=case["maxsize"])
+        @asynq.asynq()
+        def fib(n):
+            runs[0] += 1
+            if n < 2:
+                return n
+            if sync_nest:
+                return fib(n - 1) + fib(n - 2)
+            a = yield fib.asynq(n - 1)
+            b = yield fib.asynq(n - 2)
+            return a + b
+        call = fib
+    else:
+        class C(object):
+            @tools.acached_per_instance()
+            @asynq.asynq()
+            def fib(self, n):
+                runs[0] += 1
+                if n < 2:
+                    return n
+                if sync_nest:
+                    return self.fib(n - 1) + self.fib(n - 2)
+                a = yield self.fib.asynq(n - 1)
+                b = yield self.fib.asynq(n - 2)
+                return a + b
+        obj = C()
+        call = obj.fib
+    lines = ["(case cache %d recur %s %d)" % (case["id"], case["kind"], case["maxsize"])]
+    for n in case["tops"]:
+        try:
+            v = call(n)
+            v = v if type(v) is int and v >= 0 else UNKNOWN
+        except Exception as e:
+            v = UNKNOWN
+            e.__traceback__ = None
+        lines.append("(obs (top %d) %d %d)" % (n, v, runs[0]))
+    lines.append("(end)")
+    feats = ["cache=recur(" + case["kind"] + ")", "self-recursive-body", "nested-calls=" + ("sync" if sync_nest else "yield"),
+             "maxsize=%s" % (case["maxsize"] if case["maxsize"] <= 4 else ">4")]
+    key = None
+    if len(case["tops"]) >= 2 and max(case["tops"]) >= 3:
+        key = hashlib.sha1(json.dumps({k: v for k, v in case.items() if k != "id"}, sort_keys=True).encode()).hexdigest()[:16]
+    return {"lines": lines, "features": feats, "nontrivial": key}
+
+
 def run_case(case):
+    import asyncio
+    import copy
     import gc
+    import threading
     import asynq
     import asynq.tools as tools
     from asynq import BatchBase, BatchItemBase
+    try:
+        from asynq.batching import DebugBatchItem
+    except ImportError:
+        DebugBatchItem = None
 
     if not _FROZEN[0]:
         # gc.collect() after every instance drop walks every live object of the process (interpreter, asynq, stdlib:
@@ -442,7 +824,15 @@ def run_case(case):
         _FROZEN[0] = True
 
     kind = case["cache"]
-    runs = [0]
+    if kind == "recur":
+        return _run_recur(case)
+    sigs = case_sigs(case) if kind != "lazy" else []
+    nfn = len(sigs) if kind != "lazy" else case.get("nfn", 1)
+    wrap = case.get("wrap", "asynq")
+    native = case.get("native", 0)
+    one_deco = case.get("deco", "one") == "one"
+    dspell = case.get("dspell", "kw")
+    runs = [0] * nfn                 # body runs, per decorated function (generator body and native coroutine alike)
     script = [None]
     clock = [case.get("t0", 1)]
     produced = {}
@@ -468,28 +858,63 @@ def run_case(case):
             BatchItemBase.__init__(self, state["batch"])
             self.x = x
 
-    def _impl(received, owner=None):
-        runs[0] += 1
-        stamp = runs[0]
+    class FalsyTuple(tuple):
+        def __bool__(self):
+            return False
+
+    class Ctx(asynq.AsyncContext):
+        def resume(self):
+            pass
+
+        def pause(self):
+            pass
+
+    def _begin(f):
+        runs[f] += 1
         s = script[0]
         clock[0] += s.get("dur", 0)
-        if s["raises"] and not (s["blocks"] and s["rpos"] == 1):
-            raise UserErr(stamp)
-        if s["blocks"]:
-            x = yield Item(stamp)
-            if x != stamp * 10:
-                raise RuntimeError("batch item delivered %r" % (x,))
-        if s["raises"]:
-            raise UserErr(stamp)
+        return runs[f], s
+
+    def _finish(f, stamp, s, received, owner):
         if s.get("selfref") and owner is not None:
             # a value that refers to the instance it was computed for; the harness must not keep it (or the instance)
             # alive itself: it remembers the content, not the object
-            v = ("v", stamp, tuple(received), owner)
-            produced_selfref[id(v)] = (stamp, tuple(received), id(owner))
+            v = ("v", stamp, tuple(received), f, owner)
+            produced_selfref[id(v)] = (stamp, tuple(received), f, id(owner))
             return v
-        v = ("v", stamp, tuple(received))
+        v = ("v", stamp, tuple(received), f)
+        if s.get("falsy"):
+            v = FalsyTuple(v)
         produced[id(v)] = v
         return v
+
+    def _impl(f, received, owner=None):
+        stamp, s = _begin(f)
+        if s["raises"] and not (s["blocks"] and s["rpos"] == 1):
+            raise UserErr(stamp)
+        if s["blocks"]:
+            if s["via"] in AIO_VIAS:
+                yield asyncio.sleep(0)          # batch items are not supported in asyncio mode: block on the loop
+            else:
+                if s["blocks"] == 2 and DebugBatchItem is not None:
+                    x = yield DebugBatchItem("c13", stamp * 10)
+                else:
+                    x = yield Item(stamp)
+                if x != stamp * 10:
+                    raise RuntimeError("batch item delivered %r" % (x,))
+        if s["raises"]:
+            raise UserErr(stamp)
+        return _finish(f, stamp, s, received, owner)
+
+    async def _aimpl(f, received, owner=None):
+        stamp, s = _begin(f)
+        if s["raises"] and not (s["blocks"] and s["rpos"] == 1):
+            raise UserErr(stamp)
+        if s["blocks"]:
+            await asyncio.sleep(0)
+        if s["raises"]:
+            raise UserErr(stamp)
+        return _finish(f, stamp, s, received, owner)
 
     key_fns = {
         "default": None,
@@ -498,86 +923,184 @@ def run_case(case):
         "raw": lambda args, kwargs: tuple(args) + tuple(sorted(kwargs.items())),
     }
 
+    def wrapped(ns):
+        """what the cache decorator is applied to"""
+        if wrap == "dedup":
+            return tools.deduplicate()(asynq.asynq()(ns["body"]))
+        if wrap == "proxy":
+            ns["_inner"] = asynq.asynq()(ns["body"])
+            return asynq.async_proxy()(ns["proxy"])
+        if native == 1:
+            return asynq.asynq(asyncio_fn=ns["native"])(ns["body"])
+        w = asynq.asynq()(ns["body"])
+        if native == 2:
+            w.asyncio().close()      # the function's own .asyncio() was used before: its asyncio_fn is set now
+        return w
+
     saved_utime = tools.utime
+    saved_options = dict((n, getattr(asynq.debug.options, n)) for n in SILENT_OPTIONS)
     insts = {}
     hdr = None
     cls = None
-    fn = None
+    fns = []
+    loop = [None]
     if kind == "alru":
-        ns = {"_impl": _impl}
-        exec(_body_source(case["sig"]), ns)
-        fn = tools.alru_cache(maxsize=case["maxsize"], key_fn=key_fns[case["keyspec"]])(asynq.asynq()(ns["body"]))
-        hdr = "alru %d %s %s" % (case["maxsize"], case["keyspec"], _sig_wire(case["sig"]))
+        def mkdeco():
+            ms, kf = case["maxsize"], key_fns[case["keyspec"]]
+            if dspell == "pos":
+                return tools.alru_cache(ms, kf)
+            if dspell == "default" and ms == 128:
+                return tools.alru_cache() if kf is None else tools.alru_cache(key_fn=kf)
+            return tools.alru_cache(maxsize=ms, key_fn=kf)
+        one = mkdeco() if one_deco else None
+        for f, sig in enumerate(sigs):
+            ns = {"_impl": _impl, "_aimpl": _aimpl}
+            exec(_body_source(sig, f), ns)
+            fns.append((one or mkdeco())(wrapped(ns)))
+        hdr = "alru %d %s %s" % (case["maxsize"], case["keyspec"], " ".join(_sig_wire(sig) for sig in sigs))
     elif kind == "perinst":
-        ns = {"_impl": _impl}
-        exec(_body_source(case["sig"]), ns)
-        cls = type("C", (object,), {"m": tools.acached_per_instance()(asynq.asynq()(ns["body"]))})
-        hdr = "perinst %s" % _sig_wire(case["sig"])
+        one = tools.acached_per_instance() if one_deco else None
+        methods = {}
+        for f, sig in enumerate(sigs):
+            ns = {"_impl": _impl, "_aimpl": _aimpl}
+            exec(_body_source(sig, f), ns)
+            methods["m%d" % f] = (one or tools.acached_per_instance())(wrapped(ns))
+        cls = type("C", (object,), methods)
+        sub = type("D", (cls,), {})
+        hdr = "perinst %s" % " ".join(_sig_wire(sig) for sig in sigs)
     elif kind == "lazy":
         tools.utime = lambda: clock[0]
 
-        @asynq.asynq()
-        def lazy_body():
-            return (yield from _impl(()))
-        fn = tools.alazy_constant(ttl=case["ttl"])(lazy_body)
+        def mkdeco():
+            if dspell == "pos":
+                return tools.alazy_constant(case["ttl"])
+            if dspell == "default" and case["ttl"] == 0:
+                return tools.alazy_constant()
+            return tools.alazy_constant(ttl=case["ttl"])
+        one = mkdeco() if one_deco else None
+        nosig = {"args": [], "defaults": [], "kwonly": [], "kwd": []}
+        for f in range(nfn):
+            ns = {"_impl": _impl, "_aimpl": _aimpl}
+            exec(_body_source(nosig, f), ns)
+            fns.append((one or mkdeco())(wrapped(ns)))
         hdr = "lazy %d %d" % (case["ttl"], case["t0"])
     else:
         raise ValueError(kind)
 
-    def n_entries():
+    def n_entries(f):
         try:
-            d = cls.__dict__["m"].__acached_per_instance_cache__
+            d = cls.__dict__["m%d" % f].__acached_per_instance_cache__
         except (AttributeError, KeyError):
             try:
-                d = cls.m.decorator.__acached_per_instance_cache__
+                d = getattr(cls, "m%d" % f).decorator.__acached_per_instance_cache__
             except AttributeError:
                 return UNKNOWN
         return len(d)
 
-    def res_of(v):
+    def res_of(v, f):
         if v is None:
             return "(okNone)"
         got = produced.get(id(v))
         if got is v:
+            if v[3] != f:       # a value computed by ANOTHER function of the family
+                return "(ok %d (%d))" % (UNKNOWN, UNKNOWN)
             return "(ok %d (%s))" % (v[1], " ".join(str(x) for x in v[2]))
         got = produced_selfref.get(id(v))
-        if got is not None and type(v) is tuple and len(v) == 4 and got == (v[1], v[2], id(v[3])):
+        if got is not None and type(v) is tuple and len(v) == 5 and got == (v[1], v[2], v[3], id(v[4])):
+            if v[3] != f:
+                return "(ok %d (%d))" % (UNKNOWN, UNKNOWN)
             return "(ok %d (%s))" % (v[1], " ".join(str(x) for x in v[2]))
         return "(ok %d ())" % UNKNOWN
 
+    def run_loop(coro):
+        if loop[0] is None:
+            loop[0] = asyncio.new_event_loop()
+        return loop[0].run_until_complete(coro)
+
     def invoke(target, args, kw, via):
-        if via == "sync":
+        if via == "sync" or via == "cls":
             return target(*args, **kw)
-        if via == "asynq":
+        if via == "asynq" or via == "cls-asynq":
             return target.asynq(*args, **kw).value()
+        if via == "async_call":
+            return asynq.async_call(target, *args, **kw)
+        if via == "with-context":
+            return tools.call_with_context(Ctx(), target, *args, **kw)
+        if via == "asyncio" or via == "cls-asyncio":
+            return run_loop(target.asyncio(*args, **kw))
+        if via == "thread":
+            box = []
+
+            def work():
+                try:
+                    box.append((True, target(*args, **kw)))
+                except BaseException as e:
+                    box.append((False, e))
+            t = threading.Thread(target=work)
+            t.start()
+            t.join()
+            ok, val = box.pop()
+            if ok:
+                return val
+            raise val
 
         @asynq.asynq()
         def outer():
             v = yield target.asynq(*args, **kw)
             return v
+        if via == "aio-inner":
+            return run_loop(outer.asyncio())
         return outer()
 
     lines = ["(case cache %d %s)" % (case["id"], hdr)]
-    feats = ["cache=" + kind]
+    feats = ["cache=" + kind, "fns=%d" % nfn, "wrapped=" + (wrap if not native else "asynq+asyncio_fn" if native == 1 else
+                                                           "asynq+asyncio-used-before")]
+    if nfn > 1:
+        feats.append("several-functions:" + ("one-decorator-object" if one_deco else "fresh-decorators"))
+    if dspell != "kw":
+        feats.append("decorator-arguments=" + dspell)
     ncalls = hits = misses = 0
     try:
         for op in case["ops"]:
             name = op["op"]
-            before = runs[0]
+            f = op.get("fn", 0)
+            if f >= nfn:
+                f = 0
+            before = sum(runs)
+            if name == "opt":
+                # harness-only event: a silent debug option switched in mid-history (no observation of its own)
+                setattr(asynq.debug.options, op["name"], bool(op["on"]))
+                feats.append("debug-option-switched-mid-history")
+                continue
+            if name == "copy":
+                # harness-only event: instance `inst` is from now on a (deep) copy of instance `src` - a NEW instance
+                src = insts.get(op["src"])
+                if kind == "perinst" and src is not None and insts.get(op["inst"]) is None:
+                    insts[op["inst"]] = copy.deepcopy(src) if op.get("deep") else copy.copy(src)
+                    feats.append("instance-is-a-copy")
+                src = None
+                continue
             if name == "call":
                 ncalls += 1
                 script[0] = op
                 args = list(op["args"])
                 kw = dict((k, v) for k, v in op["kw"])
+                via = op["via"]
                 if kind == "perinst":
                     i = op["inst"]
                     if insts.get(i) is None:
-                        insts[i] = cls()
-                    target = insts[i].m
+                        insts[i] = cls() if i % 2 == 0 else sub()     # odd tokens: instances of a subclass
+                    if via.startswith("cls"):
+                        target = getattr(cls, "m%d" % f)       # C.m(obj, ..): the instance is passed explicitly
+                        args = [insts[i]] + args
+                    else:
+                        target = getattr(insts[i], "m%d" % f)
                 else:
-                    target = fn
+                    if via.startswith("cls"):
+                        via = {"cls": "sync", "cls-asynq": "asynq", "cls-asyncio": "asyncio"}[via]
+                    target = fns[f]
                 try:
-                    res = res_of(invoke(target, args, kw, op["via"]))
+                    res = res_of(invoke(target, args, kw, via), f)
                 except UserErr as e:
                     res = "(raisedUser %d)" % e.stamp
                     e.__traceback__ = None
@@ -588,19 +1111,23 @@ def run_case(case):
                     res = "(raisedOther %s)" % type(e).__name__
                     e.__traceback__ = None
                 target = None
-                if runs[0] > before:
+                args = None
+                if sum(runs) > before:
                     misses += 1
                 elif res.startswith("(ok"):
                     hits += 1
-                wop = "(call %d (%s) (%s) %d %d %d)" % (
+                wop = "(call %d (%s) (%s) %d %d %d %d)" % (
                     op["inst"], " ".join(str(x) for x in op["args"]),
                     " ".join("(%d %d)" % (NAMES[k], v) for k, v in op["kw"]), 1 if op["raises"] else 0, op.get("dur", 0),
-                    1 if (op.get("selfref") and kind == "perinst") else 0)
+                    1 if (op.get("selfref") and kind == "perinst") else 0, f)
                 feats.append("via=" + op["via"])
                 if op["blocks"]:
-                    feats.append("blocking-body")
+                    feats.append("blocking-body" + ("(DebugBatchItem)" if op["blocks"] == 2 and via not in AIO_VIAS else
+                                                    "(on-the-event-loop)" if via in AIO_VIAS else ""))
                 if op["raises"]:
                     feats.append("raising-body")
+                elif op.get("falsy"):
+                    feats.append("falsy-value")
                 if op.get("selfref") and kind == "perinst":
                     feats.append("value-refers-to-instance")
                 if op["kw"]:
@@ -608,42 +1135,56 @@ def run_case(case):
                 if op["args"]:
                     feats.append("spelling=positional")
                 if kind != "lazy":
-                    nparams = len([a for a in case["sig"]["args"] if a != "self"]) + len(case["sig"]["kwonly"])
+                    sig = sigs[f]
+                    nparams = len([a for a in sig["args"] if a != "self"]) + len(sig["kwonly"])
                     if len(op["args"]) + len(op["kw"]) < nparams and res != "(raisedType)":
                         feats.append("spelling=default-omitted")
-                    if any(k in case["sig"]["kwonly"] for k, _ in op["kw"]):
+                    if any(k in sig["kwonly"] for k, _ in op["kw"]):
                         feats.append("spelling=keyword-only")
-                    names_pos = [a for a in case["sig"]["args"] if a != "self"]
+                    names_pos = [a for a in sig["args"] if a != "self"]
                     if len(op["args"]) > len(names_pos) or any(k in names_pos[:len(op["args"])] for k, _ in op["kw"]):
                         feats.append("unbindable-call(too-many-positionals/duplicate: correspondence only)")
                         if res.startswith("(ok"):
                             feats.append("unbindable-call-answered-from-cache")
                 if res == "(raisedType)":
                     feats.append("malformed-call(TypeError)")
+                nruns = runs[f]
+                extra = n_entries(f) if kind == "perinst" else (clock[0] if kind == "lazy" else 0)
             elif name == "drop":
                 insts[op["inst"]] = None
                 gc.collect()
                 res = "(unit)"
                 wop = "(drop %d)" % op["inst"]
+                nruns = sum(runs)
+                extra = sum(n_entries(g) for g in range(nfn))
+                if UNKNOWN in [n_entries(g) for g in range(nfn)]:
+                    extra = UNKNOWN
             elif name == "dirty":
-                fn.dirty()
+                fns[f].dirty()
                 res = "(unit)"
-                wop = "(dirty)"
+                wop = "(dirty %d)" % f
+                nruns = runs[f]
+                extra = clock[0]
             elif name == "tick":
                 clock[0] += op["d"]
                 res = "(unit)"
                 wop = "(tick %d)" % op["d"]
+                nruns = runs[0]
+                extra = clock[0]
             else:
                 raise ValueError(name)
-            extra = n_entries() if kind == "perinst" else (clock[0] if kind == "lazy" else 0)
-            lines.append("(obs %s %s %d %d)" % (wop, res, runs[0], extra))
+            lines.append("(obs %s %s %d %d)" % (wop, res, nruns, extra))
             feats.append("op=" + name)
     finally:
         tools.utime = saved_utime
+        for n, v in saved_options.items():
+            setattr(asynq.debug.options, n, v)
+        if loop[0] is not None:
+            loop[0].close()
     lines.append("(end)")
     feats = sorted(set(feats))
     if kind == "alru":
-        feats += ["maxsize=%d" % case["maxsize"], "keyspec=" + case["keyspec"]]
+        feats += ["maxsize=%s" % (case["maxsize"] if case["maxsize"] <= 4 else ">4"), "keyspec=" + case["keyspec"]]
     if kind != "lazy":
         s = case["sig"]
         feats.append("sig=%dpos/%ddef/%dkwonly" % (len([a for a in s["args"] if a != "self"]), len(s["defaults"]), len(s["kwonly"])))
